@@ -123,7 +123,7 @@ def fits_reader(source, auto_merge=False, exclude_exts=None, label=None):
     for extnum, hdu in enumerate(hdulist):
         hdu_name = hdu.name if hdu.name else "HDU{0}".format(extnum)
         if (hdu.data is not None and
-                hdu.data.size > 0 and
+                (hdu.data.size > 0 or is_table_hdu(hdu)) and
                 hdu_name not in exclude_exts and
                 extnum not in exclude_exts):
             if is_image_hdu(hdu):
